@@ -337,7 +337,7 @@ def output_roughly_contains_input(input_: bytes, output: bytes) -> bool:
         N/A
 
     """
-    if output in input_:
+    if input_ in output:
         return True
 
     if len(output) < len(input_):
